@@ -26,7 +26,7 @@ LEVEL_TEXT = ("Seeded restart-fault exploration: the JSON save/load path is exer
 LEVEL_NOTE = "Trusted: in-memory file shim (cross-checked against a real directory in a sampled fraction), dump comparison; sampling evidence only."
 PROBES = ["stage_built", "stage_initialized", "stage_paused", "stage_finished", "stage_backward", "stage_edited",
           "with_subproject_task", "with_task_rules", "with_mainwp", "with_conveyor", "zero_lst_value", "resimulated_twin", "real_directory_used",
-          "unconfigured_subproject_task", "non_auto_subproject_task"]
+          "unconfigured_subproject_task", "non_auto_subproject_task", "encoding_option_used"]
 
 
 def budget(tier):
@@ -51,6 +51,15 @@ def gen(rng, tier):
     spec["due"] = rng.random() < 0.4
     spec["edit"] = sorted(set(rng.randint(0, 6) for _ in range(rng.randint(1, 3))))
     spec["real_dir"] = rng.random() < 0.02
+    if rng.random() < 0.1:
+        # names outside ASCII and the file encoding option: the saved text is pure ASCII (escapes), so any encoding can hold it
+        pool = ["\u4f5c\u696d\u8005", "\u9ad9\u6a4b", "t\u00e2che", "\u03a9-team", "p\u0142yta", "\U0001f527"]
+        m = spec["model"]
+        for grp in [m["teams"], m["comps"], m["wps"]] + [tm["workers"] for tm in m["teams"]]:
+            for o_ in grp:
+                if rng.random() < 0.5:
+                    o_["name"] = rng.choice(pool) + o_["id"]
+        spec["encoding"] = rng.choice(["utf-8", "shift_jis", "cp932", "latin-1", "ascii", "euc_jp"])
     if rng.random() < 0.25:
         subp = G.gen_profile(rng, {"facilities": False, "comps": False})
         spec["sub"] = {"model": G.gen_feasible(rng, subp), "cfg": G.gen_cfg(rng, subp, max_time=200), "file": "mem:sub0.json"}
@@ -297,7 +306,11 @@ def run(spec):
         path = tmpdir + "/p.json"
         res.count("real_directory_used")
     try:
-        ow = D.call(lambda: p.write_simple_json(path))
+        enc = spec.get("encoding")
+        ekw = {"encoding": enc} if enc else {}
+        if enc:
+            res.count("encoding_option_used")
+        ow = D.call(lambda: p.write_simple_json(path, **ekw))
         if not ow.ok:
             res.add("write", "C16.write_raises.%s@%s" % (ow.exc_type, ow.where),
                     "write_simple_json at stage %s raised %s(%s)" % (stage, ow.exc_type, ow.msg), None)
@@ -305,20 +318,20 @@ def run(spec):
             return res
         M = env.M
         new = M.bp.BaseProject()
-        orr = D.call(lambda: new.read_simple_json(path))
+        orr = D.call(lambda: new.read_simple_json(path, **ekw))
         if not orr.ok:
             res.add("read", "C16.read_raises.%s@%s" % (orr.exc_type, orr.where),
                     "read_simple_json of a file written at stage %s raised %s(%s)" % (stage, orr.exc_type, orr.msg), None)
             res.digest = "read"
             return res
-        text1 = seams.MEMFS[path] if path.startswith("mem:") else open(path).read()
+        text1 = seams.MEMFS[path] if path.startswith("mem:") else open(path, encoding=(enc or "utf-8")).read()
         path2 = "mem:c16b.json" if tmpdir is None else tmpdir + "/p2.json"
-        ow2 = D.call(lambda: new.write_simple_json(path2))
+        ow2 = D.call(lambda: new.write_simple_json(path2, **ekw))
         if not ow2.ok:
             res.add("write", "C16.rewrite_raises.%s@%s" % (ow2.exc_type, ow2.where),
                     "write_simple_json of the restored project (stage %s) raised %s(%s)" % (stage, ow2.exc_type, ow2.msg), None)
         else:
-            text2 = seams.MEMFS[path2] if path2.startswith("mem:") else open(path2).read()
+            text2 = seams.MEMFS[path2] if path2.startswith("mem:") else open(path2, encoding=(enc or "utf-8")).read()
             j1, j2 = json.loads(text1), json.loads(text2)
             attr, d = json_diff_key(j1, j2)
             if attr is not None:
